@@ -342,6 +342,9 @@ func runC04(cfg *vc.Config, rep *vc.Report) {
 	if cfg.Only < 0 {
 		runC04Address(cfg, rep, cfg.Count(10000, 250000))
 	}
+	if cfg.Only < 0 && cfg.Shard == 0 {
+		runC04Operators(rep)
+	}
 	ctx := context.Background()
 	db, rec := fakesql.Open()
 	stores := map[string]*ledgerstore.Store{"ledgera": ledgerstore.NewStoreForVerif(db, "bucket0", "ledgera"), "ledgerb": ledgerstore.NewStoreForVerif(db, "bucket0", "ledgerb")}
